@@ -160,3 +160,177 @@ func vC07Mix(nOps int) {
 
 func Harness_C07_Mix_2() { vC07Mix(2) }
 func Harness_C07_Mix_3() { vC07Mix(3) }
+
+// A callee that stopped reading with a full queue: every call and cancel of
+// the other sessions is still answered, once (also C02 / C13: kill degrades
+// to skip when the callee cannot be interrupted; a refused call leaves nothing
+// behind that could produce a second reply).
+func vC07StalledCalleeCalls(nEvents int) {
+	d := newDealer(vNopLog{}, false, true, false)
+	caller := vNewSess(21, nil, vFeat("caller", map[string]bool{"call_canceling": true}), 32)
+	callee := vNewSess(22, nil, vFeat("callee", map[string]bool{"call_canceling": true}), 1)
+	d.register(callee.s, &wamp.Register{Request: 1, Procedure: "p.q"})
+	vSyncDealer(d)
+	vAssert("registered", len(callee.vDrain()) == 1)
+	// from here on the callee does not read: its queue holds at most one message
+	type want struct {
+		req wamp.ID
+		uri wamp.URI
+	}
+	var wants []want
+	pending := map[wamp.ID]bool{}
+	canceled := map[wamp.ID]bool{}
+	queueFull := false
+	calleeGone := false
+	next := wamp.ID(10)
+	var lastReq wamp.ID
+	for step := 0; step < nEvents; step++ {
+		switch vChoice("event", 4) {
+		case 0: // a new call
+			next++
+			req := next
+			lastReq = req
+			d.call(caller.s, &wamp.Call{Request: req, Procedure: "p.q"})
+			switch {
+			case calleeGone:
+				wants = append(wants, want{req, wamp.ErrNoSuchProcedure})
+			case queueFull:
+				wants = append(wants, want{req, wamp.ErrNetworkFailure})
+			default:
+				queueFull = true
+				pending[req] = true
+			}
+		case 1: // CANCEL of the most recent call
+			if lastReq == 0 {
+				continue
+			}
+			mode := []string{wamp.CancelModeSkip, wamp.CancelModeKillNoWait, wamp.CancelModeKill}[vChoice("mode", 3)]
+			d.cancel(caller.s, &wamp.Cancel{Request: lastReq, Options: wamp.Dict{"mode": mode}})
+			if pending[lastReq] && !canceled[lastReq] {
+				// the INTERRUPT cannot be queued (the INVOCATION still fills the
+				// queue): every mode ends the call for the caller now
+				canceled[lastReq] = true
+				delete(pending, lastReq)
+				wants = append(wants, want{lastReq, wamp.ErrCanceled})
+			}
+		case 2: // the stalled callee is dropped
+			if calleeGone {
+				continue
+			}
+			calleeGone = true
+			d.removeSession(callee.s)
+			for req := wamp.ID(11); req <= next; req++ {
+				if pending[req] {
+					delete(pending, req)
+					wants = append(wants, want{req, wamp.ErrCanceled})
+				}
+			}
+		case 3: // bystander traffic
+			d.cancel(caller.s, &wamp.Cancel{Request: 9999, Options: wamp.Dict{}})
+		}
+		vSyncDealer(d)
+		vAssert("stalled-callee-buffers-at-most-its-queue", len(callee.client.Recv()) <= 1)
+	}
+	got := caller.vDrain()
+	vAssert("every-call-and-cancel-answered-exactly-once", len(got) == len(wants))
+	for i, m := range got {
+		if i >= len(wants) {
+			break
+		}
+		e, ok := m.(*wamp.Error)
+		vAssert("error-reply", ok)
+		if ok {
+			vAssert("reply-in-order-with-reason", e.Type == wamp.CALL && e.Request == wants[i].req && e.Error == wants[i].uri)
+		}
+	}
+	vAssert("no-state-for-answered-calls", len(d.calls) == len(pending) && len(d.invocations) == len(pending) && len(d.invocationByCall) == len(pending))
+	if len(wants) > 1 {
+		vCover("several-answered")
+	}
+	vCover("stalled-callee-calls-done")
+}
+
+func Harness_C07_StalledCalleeCalls_3() { vC07StalledCalleeCalls(3) }
+func Harness_C07_StalledCalleeCalls_4() { vC07StalledCalleeCalls(4) }
+
+// Meta-API calls concurrent with registrations, unregistrations, subscriptions
+// and departures: under every schedule within the delay bound no cycle of
+// waiting workers forms (engine-level deadlock detection) and every request
+// is answered.
+func vC07ConcurrentMeta(budget int) {
+	r := vNewRouter(&Config{RealmConfigs: []*RealmConfig{{URI: "realm1", AnonymousAuth: true, EnableMetaKill: true}}})
+	a := vAttach(r, "realm1", nil, 64)
+	b := vAttach(r, "realm1", nil, 64)
+	obs := vAttach(r, "realm1", nil, 64)
+	victim := vAttach(r, "realm1", nil, 64)
+	vAssert("attached", a != nil && b != nil && obs != nil && victim != nil)
+	obs.send(&wamp.Subscribe{Request: 1, Topic: "wamp.", Options: wamp.Dict{"match": "prefix"}})
+	obs.drain()
+	b.send(&wamp.Register{Request: 1, Procedure: "b.proc"})
+	b.send(&wamp.Subscribe{Request: 2, Topic: "b.topic"})
+	bm := b.drain()
+	rg, _ := vFindMsg[*wamp.Registered](bm)
+	sd, _ := vFindMsg[*wamp.Subscribed](bm)
+	vAssert("b-setup", rg != nil && sd != nil)
+	metaProc := []wamp.URI{wamp.MetaProcSessionCount, wamp.MetaProcRegList}[vChoice("meta", 2)]
+	bkind := vChoice("b.op", 5)
+	vSetPreempt(budget)
+	ad, bd := make(chan struct{}), make(chan struct{})
+	go func() {
+		defer close(ad)
+		a.send(&wamp.Call{Request: 10, Procedure: metaProc})
+	}()
+	go func() {
+		defer close(bd)
+		switch bkind {
+		case 0:
+			b.send(&wamp.Unregister{Request: 20, Registration: rg.Registration})
+		case 1:
+			b.send(&wamp.Register{Request: 20, Procedure: "b.proc2"})
+		case 2:
+			b.send(&wamp.Unsubscribe{Request: 20, Subscription: sd.Subscription})
+		case 3:
+			b.send(&wamp.Goodbye{Reason: wamp.CloseRealm, Details: wamp.Dict{}})
+		case 4:
+			b.send(&wamp.Call{Request: 20, Procedure: wamp.MetaProcSessionKill, Arguments: wamp.List{victim.id}})
+		}
+	}()
+	<-ad
+	<-bd
+	vSetPreempt(0)
+	am := a.drain()
+	nres := 0
+	for _, m := range am {
+		if res, ok := m.(*wamp.Result); ok && (res.Request == 10 || res.Request == 11) {
+			nres++
+		}
+	}
+	vAssert("meta-call-answered", nres == 1)
+	bm = b.drain()
+	switch bkind {
+	case 0:
+		_, n := vFindMsg[*wamp.Unregistered](bm)
+		vAssert("unregister-answered", n == 1)
+	case 1:
+		_, n := vFindMsg[*wamp.Registered](bm)
+		vAssert("register-answered", n == 1)
+	case 2:
+		_, n := vFindMsg[*wamp.Unsubscribed](bm)
+		vAssert("unsubscribe-answered", n == 1)
+	case 3:
+		_, n := vFindMsg[*wamp.Goodbye](bm)
+		vAssert("goodbye-answered", n == 1)
+	case 4:
+		_, n := vFindMsg[*wamp.Result](bm)
+		vAssert("kill-answered", n == 1)
+		_, ng := vFindMsg[*wamp.Goodbye](victim.drain())
+		vAssert("victim-told-goodbye", ng == 1)
+	}
+	vAssert("no-worker-stuck-sending", vBlockedSends() == 0)
+	vBystanderServed(r, obs)
+	vCover("concurrent-meta-done")
+}
+
+func Harness_C07_ConcurrentMeta_1() { vC07ConcurrentMeta(1) }
+func Harness_C07_ConcurrentMeta_2() { vC07ConcurrentMeta(2) }
+func Harness_C07_ConcurrentMeta_3() { vC07ConcurrentMeta(3) }
